@@ -195,7 +195,7 @@ PROPS = {
                              search=[('awsops', ['-n', 20000]), ('hist', ['-n', 1500, '-scans', 12, '-focus', 'up']), ('hist', ['-n', 32, '-scans', 6, '-focus', 'up', '-slow']), ('fleetops', ['-n', 300]), ('hist', ['-n', 40, '-scans', 8, '-focus', 'fleet'])]),
                 aspects=['hist:untaints', 'hist:resize', 'hist:gets', 'hist:pre', 'cached-desired', 'journal'], monitors=['C07'],
                 theorems=['Esc.P.C07_order', 'Esc.P.C07_remainder', 'Esc.P.C07_on_top', 'Esc.untaintLoop_spec', 'Esc.P.tryDelete_desired', 'Esc.orderBy_pairwise',
-                          'Esc.P.runOnce_fresh', 'Esc.P.C07_fresh_history', 'Esc.P.C07_on_top_of_reported', 'Esc.P.C07_source_remainder', 'Esc.P.gen_scaleUp_remainder_eq', 'Esc.P.gen_scaleUp_translation_complete', 'Esc.P.untaintStep_spec', 'Esc.P.C07_source_untaint_at_most_n', 'Esc.P.C07_source_untaint_exact', 'Esc.P.gen_loops_translation_complete', 'Esc.P.gen_untaintLoop_count_eq', 'Esc.P.C07_untaintLoop_count_exact', 'Esc.P.gen_untaintLoop_count_eq_dry', 'Esc.P.C07_untaintLoop_count_exact_dry'],
+                          'Esc.P.runOnce_fresh', 'Esc.P.C07_fresh_history', 'Esc.P.C07_on_top_of_reported', 'Esc.P.C07_source_remainder', 'Esc.P.gen_scaleUp_remainder_eq', 'Esc.P.gen_scaleUp_translation_complete', 'Esc.P.untaintStep_spec', 'Esc.P.C07_source_untaint_at_most_n', 'Esc.P.C07_source_untaint_exact', 'Esc.P.gen_loops_translation_complete', 'Esc.P.gen_untaintLoop_count_eq', 'Esc.P.C07_untaintLoop_count_exact', 'Esc.P.gen_untaintLoop_count_eq_dry', 'Esc.P.C07_untaintLoop_count_exact_dry', 'Esc.P.untaintLoop_dry_quiet'],
                 technique='Lean 4 theorem (untaint loop attempts a newest-first prefix; count/remainder accounting of ScaleUp; exact SetDesiredCapacity value on the cached desired size, which follows accepted terminations) + differential correspondence incl. the provider cache after multi-node deletions + monitors',
                 level_text='C07_order: any tainted node not attempted is not strictly newer than an attempted one (all tie-breaks, all failing writes); C07_remainder: reported untaints <= N, the cloud is asked only if every tainted node was attempted, and then for the remainder N - untainted clamped to the bound, >= 1; '
                            'C07_on_top + tryDelete_desired: SetDesiredCapacity = cached desired + amount, the cached desired having been decremented once per accepted termination of the same scan. Tie: hist (up-focused: tainted nodes + high load + force removals) and awsops (cached desired after DeleteNodes); '
